@@ -188,3 +188,20 @@ pub fn native_realize(b: &mut [u8], len: usize, key: &[u8], mask: u32) {
         o += 4 + padded;
     }
 }
+
+/// replaces core::fmt::write (the engine behind format!/write!/panic messages): formats nothing.
+/// Formatting is reached from panic paths of core (slice index failures, unwrap_failed) and from
+/// Display/Debug impls; with symbolic operands CBMC unrolls the padding/number machinery for
+/// minutes.  No property decided here depends on a formatted string (C01's Display/Debug half is
+/// outside the claim, see DESIGN).
+pub fn fmt_write_stub(_output: &mut dyn core::fmt::Write, _args: core::fmt::Arguments<'_>) -> core::fmt::Result {
+    Ok(())
+}
+
+/// replaces core::result::unwrap_failed (the cold path of Result::unwrap/expect): panics without
+/// formatting the error.  The real one is `panic!("{msg}: {error:?}")`; with an error whose fields
+/// are symbolic (TooSmall { expected, actual }) CBMC executes the whole Debug machinery
+/// (DebugStruct, PadAdapter, integer formatting) at every unwrap of the code under test.
+pub fn unwrap_failed_stub(_msg: &str, _error: &dyn core::fmt::Debug) -> ! {
+    panic!("called `Result::unwrap()` on an `Err` value")
+}
